@@ -834,6 +834,63 @@ func (c *c19) runJob(j *job) {
 	os.RemoveAll(j.Dir)
 }
 
+// defaultOutDir is the documented default output directory of a target.
+func defaultOutDir(tgt string) string {
+	switch tgt {
+	case "py:asyncio":
+		return "gen-py.asyncio"
+	case "py:tornado":
+		return "gen-py.tornado"
+	}
+	return "gen-" + tgt
+}
+
+// runDefaultOut compiles one (program, target, option set) from an empty
+// working directory without -out, and from another empty working directory
+// with -out <default directory> spelled out.  Both working directories, hashed
+// as whole trees relative to the cwd, must be identical, and everything the
+// compiler writes must lie inside the output directory.
+func (c *c19) runDefaultOut(i int, p *idl.Program, src map[string]string, t target, s optSet, dir string) {
+	run := c.run
+	defer os.RemoveAll(dir)
+	srcDir := filepath.Join(dir, "src")
+	if c.writeSources(srcDir, src) != nil {
+		return
+	}
+	j := &job{P: i, Prog: p, Src: src, Tgt: t, Set: s, Recurse: true}
+	file := filepath.Join(srcDir, p.Root().FileName())
+	def := defaultOutDir(t.Name)
+	w1, w2 := filepath.Join(dir, "cwd-no-out"), filepath.Join(dir, "cwd-explicit-out")
+	os.MkdirAll(w1, 0o755)
+	os.MkdirAll(w2, 0o755)
+	a := c.compile(j, w1, file, "", w1)
+	b := c.compile(j, w2, file, def, w2)
+	run.Eval(2)
+	run.Add("default_out_comparisons", 1)
+	if a.Exit == -99 || b.Exit == -99 {
+		run.Inconclusive(fmt.Sprintf("watchdog in the default output directory experiment (program %d, %s)", i, t.gen(s)))
+		return
+	}
+	run.Distinct("default-out " + t.gen(s))
+	if d := compare(b, a); d != nil {
+		what := fmt.Sprintf("compiling without -out does not produce, relative to the working directory, what -out %s produces: %s %s", def, d.Kind, d.Rel)
+		cls := "acceptance"
+		if d.Rel != "" {
+			cls = fileClass(t.Name, d.Rel)
+		}
+		c.pend(&pending{Kind: "location-dependent", Target: t.Name, Label: s.Label, Cls: cls, Tail: "default-out-dir", What: what, W: c.witness(j, d, w2)})
+		return
+	}
+	for rel := range a.Tree {
+		if !strings.HasPrefix(rel, def+"/") {
+			d := &difference{Kind: "file-set", Rel: rel, Detail: map[string]interface{}{"outside_the_output_directory": def}, FirstRun: b, Other: a}
+			c.pend(&pending{Kind: "location-dependent", Target: t.Name, Label: s.Label, Cls: fileClass(t.Name, rel), Tail: "file-outside-the-output-directory",
+				What: fmt.Sprintf("the compiler wrote %s into the working directory, outside its output directory %s (with and without -out)", rel, def), W: c.witness(j, d, w2)})
+			return
+		}
+	}
+}
+
 // runVariation compiles j once in location variation v; returns the
 // observation and the paths to remove afterwards (nil observation = skipped).
 func (c *c19) runVariation(j *job, v, srcA, outA, rootFile string) (*obs, []string) {
@@ -994,6 +1051,7 @@ func runC19(tier string) int {
 	base := filepath.Join(ev.ScratchDir(), "c19")
 	var jobs []*job
 	var inproc []func() // in-process sequences, one per program (inproc.go)
+	var defout []func() // default output directory experiments (runDefaultOut)
 	featVectors := map[string]bool{}
 	totalFiles, totalDecls := 0, 0
 	for i := 0; i < nprog; i++ {
@@ -1054,6 +1112,19 @@ func runC19(tier string) int {
 			inproc = append(inproc, func() {
 				c.runInProcess(i, p, src, rootPlus, tgts, filepath.Join(base, fmt.Sprintf("p%d", i), "inproc"))
 			})
+		}
+		// no -out at all: the default output directory, relative to the cwd
+		for ti, t := range tgts {
+			for si, s := range t.Sets {
+				// quick: every option set of the cheap targets, one rotating set for go;
+				// thorough: every option set, every second program
+				if run.Thorough() && i%2 == 1 || !run.Thorough() && t.Name == "go" && si != (i+int(run.Seed))%len(t.Sets) {
+					continue
+				}
+				i, p, src, t, s := i, p, src, t, s
+				dir := filepath.Join(base, fmt.Sprintf("p%d", i), fmt.Sprintf("defout%d_%d", ti, si))
+				defout = append(defout, func() { c.runDefaultOut(i, p, src, t, s, dir) })
+			}
 		}
 		for ti, t := range tgts {
 			var sets []optSet
@@ -1117,6 +1188,17 @@ func runC19(tier string) int {
 			defer iwg.Done()
 			isem <- struct{}{}
 			defer func() { <-isem }()
+			f()
+		}(f)
+	}
+	run.Set("default_output_directory_experiments", len(defout))
+	dsem := make(chan struct{}, 6)
+	for _, f := range defout {
+		iwg.Add(1)
+		go func(f func()) {
+			defer iwg.Done()
+			dsem <- struct{}{}
+			defer func() { <-dsem }()
 			f()
 		}(f)
 	}
